@@ -347,6 +347,10 @@ class GateSim(PeerSim):
             return [cls, r.choice(types), 0, 0, 0]
         if cls == "app_disconnect":
             return [cls, r.choice(["plain", "logout", "logout_empty"]), 0, 0, 0]
+        if cls == "peer_close" and random.Random(cfg["seed"] ^ 0xC11B4).random() < 0.4:
+            # (in 40 % of the runs) the connection does not end with a clean EOF but is lost with a transport error:
+            # reset, broken pipe, or - not a ConnectionError - a timeout
+            return [cls, r.choice(["x", "reset", "pipe", "timeout", "timeout"]), 0, 0, 0]
         return [cls, "x", 0, 0, 0]
 
     def concretize(self, proto):
@@ -451,7 +455,11 @@ class GateSim(PeerSim):
             self.spawn(self._do_disconnect(x), f"app-disconnect-{self.n_stim}")
             self.fault("app_disconnect")
         elif cls == "peer_close":
-            if p.connected:
+            live = [c for c in self.net.conns if self.breakable(c)]
+            if p.connected and x in ("reset", "pipe", "timeout") and live:
+                self.fire(["break", live[-1].cid, x, x, 0])
+                self.fault("peer_close_with_transport_error_" + x)
+            elif p.connected:
                 p.close()
                 self.fault("peer_close")
         elif cls == "peer_reconnect":
@@ -585,6 +593,19 @@ class GateSim(PeerSim):
             self.close_window(cur)
 
     def judge(self):
+        # a connection whose transport is gone is disconnected and has said so: the reader / heartbeat task of the
+        # library must not have died on the way (a dead reader leaves the endpoint ACTIVE on a dead socket, sends
+        # still consume numbers, nothing is ever reported)
+        dead = self.dead_tasks()
+        if dead and self.violation is None:
+            live_tr = [t for c in self.net.conns for t in c.tr
+                       if t is not None and t.label == "E" and not t._lost_called and not t._closing]
+            if self.eut.connection_state > DISC and not live_tr:
+                raise Violation("library-task-died", f"C11/connected-state-on-a-dead-transport/{dead[0][1].split('(')[0]}",
+                                f"a task of the library ended with an exception: {dead[0]}; the transport is gone but the "
+                                f"state is {self.eut.connection_state.name} and on_disconnect was reported "
+                                f"{self.eut.n_on_disconnect} time(s)")
+            self.probe("library_task_died_after_a_consistent_disconnect")
         if not self.prefix_done:
             self.probe("prefix_not_reached")
             return
